@@ -131,9 +131,11 @@ Theorem C20_ids : forall u t o a m t',
 Proof. exact exec_ids. Qed.
 Print Assumptions C20_ids.
 
-(* over ANY history of helper calls on one tester (registrations, accepted and refused fabrications for
-   arbitrary orders): the ExecIDs of the returned messages are str(n) of a strictly increasing sequence
-   of numbers above the counter at the start ... *)
+(* over ANY history of helper calls on one tester - registrations (order_register_single, fix_cxl_request,
+   fix_rep_request), accepted and refused fabrications for arbitrary orders, AND the non-fabricating public methods
+   (reset_messages, set_next_num, the two queries, the msg_* factories, fix_cxlrep_reject_msg, process_msg_acceptor /
+   reply; Tester.book) in any order: the ExecIDs of the returned messages are str(n) of a strictly increasing
+   sequence of numbers above the counter at the start ... *)
 Theorem C20_exec_id_increasing : forall u ops t t' ms,
   run_ops u t ops = (t', ms) ->
   t_eid t <= t_eid t' /\
@@ -147,6 +149,24 @@ Theorem C20_exec_id_fresh : forall u ops t t' ms,
   run_ops u t ops = (t', ms) -> NoDup (map exec_id_of ms) /\ Forall (fun e => e <> None) (map exec_id_of ms).
 Proof. exact run_exec_ids_distinct. Qed.
 Print Assumptions C20_exec_id_fresh.
+
+(* the bookkeeping methods do not touch the id counters, the registered orders or the root -> OrderID map (this is
+   the model; the harness compares the real tester's state with it after every such call) *)
+Theorem C20_bookkeeping_keeps_ids : forall t b, bookkeeping t b = t.
+Proof. exact bookkeeping_id. Qed.
+Print Assumptions C20_bookkeeping_keeps_ids.
+
+Example C20_nonvacuous_two_phase_history :
+  let a1 := w_args (o_clord w_order) PENDING_NEW PENDING_NEW None None in
+  let a2 := w_args (o_clord w_order) NEW NEW (Some 0) (Some (8 * 4096)) in
+  map (fun m => (order_id_of m, exec_id_of m))
+      (snd (run_ops 4096 w_state
+              [OpExec w_order a1; OpExec w_order a2; OpBook BResetMessages; OpBook (BSetNextNum (Some 5) None);
+               OpExec w_order a1; OpBook BQuery; OpExec w_order a2]))
+  = [(Some [49%N], Some [49;48;48;48;49]%N); (Some [49%N], Some [49;48;48;48;50]%N);
+     (Some [49%N], Some [49;48;48;48;51]%N); (Some [49%N], Some [49;48;48;48;52]%N)].
+Proof. exact reset_history_witness. Qed.
+Print Assumptions C20_nonvacuous_two_phase_history.
 
 Theorem C20_str_int_injective : forall a b, z_to_dec a = z_to_dec b -> a = b.
 Proof. exact z_to_dec_inj. Qed.
